@@ -1,6 +1,11 @@
 //! Per-property configurations: alphabets, bounds and oracle wiring.
 pub mod alphabet;
 pub mod c01;
+pub mod c02;
+pub mod c04;
+pub mod c11;
+pub mod c13;
+pub mod gen;
 
 use crate::util::Part;
 
@@ -12,6 +17,10 @@ pub fn small_build() -> bool {
 pub fn run(property: &str, thorough: bool) -> Option<Vec<Part>> {
     match property {
         "C01" => Some(c01::run(thorough)),
+        "C02" => Some(c02::run(thorough)),
+        "C04" => Some(c04::run(thorough)),
+        "C11" => Some(c11::run(thorough)),
+        "C13" => Some(c13::run(thorough)),
         _ => None,
     }
 }
